@@ -51,6 +51,7 @@ type GenesisSpec struct {
 	Vals    map[string]int64 `json:"vals"`
 	ForkOn  bool             `json:"forkOn"`
 	ForkH   int64            `json:"forkH"`
+	Dev     bool             `json:"dev"`
 }
 
 // Consts is what TLC prints with the CONST tag.
